@@ -309,10 +309,18 @@ impl Gen {
         let ncols = 1 + self.rng.usize_below(max_cols.max(1));
         let nkeys = if self.rng.chance(300) && ncols >= 2 { 2 } else { 1 };
         let mut cols = Vec::new();
+        // key columns conventionally come first, but may be declared anywhere
+        let mut key_pos: Vec<usize> = (0..nkeys).collect();
+        if self.rng.chance(300) {
+            let mut all: Vec<usize> = (0..ncols).collect();
+            self.rng.shuffle(&mut all);
+            key_pos = all[..nkeys].to_vec();
+        }
         for i in 0..ncols {
             let cname = if self.rng.chance(900) { format!("C{}", i + 1) } else { format!("{}{}", self.ident(3), i) };
-            let mut c = self.plain_col(cname, i < nkeys);
-            if i < nkeys && c.is_str() {
+            let is_key = key_pos.contains(&i);
+            let mut c = self.plain_col(cname, is_key);
+            if is_key && c.is_str() {
                 // key strings need room for a serial
                 if let CType::Str(w) = c.ty {
                     if w != 0 && w < 12 && c.enums.is_empty() {
@@ -572,7 +580,12 @@ impl Gen {
             } else {
                 self.rng.usize_below(t.cols.len())
             };
-            let v = self.gen_value(&t.cols[ci], t.cols[ci].key);
+            let mut v = self.gen_value(&t.cols[ci], t.cols[ci].key);
+            if !t.rows.is_empty() && self.rng.chance(150) {
+                // a value some row of the column already holds (for the rows
+                // that hold it the assignment changes nothing)
+                v = t.rows[self.rng.usize_below(t.rows.len())][ci].clone();
+            }
             sets.push((t.cols[ci].name.clone(), v));
         }
         let cond = self.opt_cond(&t);
@@ -666,6 +679,13 @@ impl Gen {
             let mut cs: Vec<char> = name.chars().collect();
             cs.insert(at, odd);
             name = cs.into_iter().collect();
+        }
+        if allow_odd && self.rng.chance(40) {
+            // too long, with multi-byte characters at every byte offset class
+            let c = *self.rng.pick(&['中', 'é', '😀', '\u{3a00}', 'ж']);
+            let n = *self.rng.pick(&[17usize, 25, 32, 33, 40, 64, 65]);
+            let lead = "ab"[..self.rng.usize_below(3)].to_string();
+            name = format!("{}{}", lead, c.to_string().repeat(n));
         }
         if allow_odd && self.rng.chance(30) {
             name = self
@@ -780,7 +800,11 @@ impl Gen {
     }
 
     fn sum_string(&mut self) -> String {
-        let n = *self.rng.pick(&[0usize, 1, 2, 3, 4, 5, 6, 7, 8, 15, 16, 17, 100, 1999]);
+        let mut n = *self.rng.pick(&[0usize, 1, 2, 3, 4, 5, 6, 7, 8, 15, 16, 17, 100, 1999]);
+        if self.rng.chance(25) {
+            // the summary stream outgrows the container's 8 KiB stream buffer
+            n = *self.rng.pick(&[8000usize, 8010, 8030, 8192, 9000, 20000]) + self.rng.usize_below(16);
+        }
         let mut s = String::new();
         for _ in 0..n {
             if !self.alphabet.is_empty() && self.rng.chance(300) {
@@ -1497,6 +1521,12 @@ pub fn gen_foreign_spec(rng: &mut Prng, big: bool) -> ForeignSpec {
         docsummary: rng.chance(100),
         shuffle_catalog: rng.chance(300),
         catalog_first: big || rng.chance(200),
+        stale_validation: if validation && rng.chance(250) {
+            // the names the history's own create_table calls will use
+            (1..=3).flat_map(|i| (1..=2).map(move |j| (format!("T{}", i), format!("C{}", j)))).collect()
+        } else {
+            Vec::new()
+        },
     }
 }
 
@@ -1604,8 +1634,22 @@ pub fn generate(property: &str, profile: Profile, seed: u64, run: u64) -> Trace 
             }
             let mode = *g.rng.pick(&[CloseMode::IntoInner, CloseMode::Drop, CloseMode::Crash]);
             g.push(Op::Restart { mode, edits });
-            // the mutate sweep
+            // the read and mutate sweep (the executor's observation reads
+            // everything; joins are added here)
             for _ in 0..(4 + g.rng.below(8)) {
+                if g.rng.chance(200) {
+                    let ts: Vec<String> = g.model.tables.keys().cloned().collect();
+                    let l = g.rng.pick(&ts).clone();
+                    let r = g.rng.pick(&ts).clone();
+                    if l != r {
+                        let lc = g.model.tables[&l].cols[g.rng.usize_below(g.model.tables[&l].cols.len())].name.clone();
+                        let rc = g.model.tables[&r].cols[g.rng.usize_below(g.model.tables[&r].cols.len())].name.clone();
+                        let outer = g.rng.chance(500);
+                        g.push(Op::Join { left: l, right: r, lcol: lc, rcol: rc, outer });
+                        g.push(Op::Observe);
+                        continue;
+                    }
+                }
                 g.one_op();
             }
             g.push(Op::Flush);
@@ -1621,6 +1665,15 @@ pub fn generate(property: &str, profile: Profile, seed: u64, run: u64) -> Trace 
             g.push(op);
         }
     }
+    let mut faults = Vec::new();
+    if profile == Profile::ReadOnly && g.rng.chance(150) {
+        // the medium's own flush fails once while a read-only session closes
+        let restarts: Vec<u32> = g.ops.iter().filter(|o| matches!(o.op, Op::Restart { .. })).map(|o| o.id).collect();
+        if restarts.len() >= 2 {
+            let id = restarts[1 + g.rng.usize_below(restarts.len() - 1)];
+            faults.push(crate::disk::FaultSpec { op_id: id, kind: crate::disk::EvKind::Flush, nth: 0, persistent: false });
+        }
+    }
     Trace {
         property: property.to_string(),
         profile: profile.name().to_string(),
@@ -1631,7 +1684,7 @@ pub fn generate(property: &str, profile: Profile, seed: u64, run: u64) -> Trace 
         message: None,
         knobs,
         init,
-        faults: Vec::new(),
+        faults,
         ops: g.ops,
     }
 }
@@ -1649,7 +1702,9 @@ pub fn gen_corruption(rng: &mut Prng) -> CorruptSpec {
         59..=70 => CorruptSpec::StreamLen(rng.next_u64() as u32, rng.below(5) as u8, rng.next_u64() as u32),
         71..=74 => CorruptSpec::PoolHeader(rng.below(3) as u8),
         75..=84 => CorruptSpec::PoolEntry(rng.next_u64() as u32, rng.below(5) as u8),
-        85..=97 => CorruptSpec::PropSet(rng.below(16) as u8, rng.next_u64() as u32),
+        85..=94 => CorruptSpec::PropSet(rng.below(16) as u8, rng.next_u64() as u32),
+        95..=96 => CorruptSpec::AddEntry(rng.below(8) as u8),
+        97 => CorruptSpec::PoolGrow(*rng.pick(&[1u32, 70, 65_500, 70_000])),
         _ => CorruptSpec::RootClsid,
     }
 }
